@@ -579,6 +579,10 @@ def m_next_dispatch(ai, fr, st, bb, t, args, key):
             return m_rev_next(ai, fr, st, bb, t, args, key)
         if it.name == "std::ops::Range":
             return m_range_next(ai, fr, st, bb, t, args, key)
+    # any other in-memory std iterator (Copied<Iter>, Skip<..>, ...): `next` is total, the item is not tracked
+    if t.args and _plain_iterator(ai.subst_ty(t.args[0].ty, fr.subst)):
+        ai.havoc_args(fr, st, t, args, key)
+        return ret_top(ai, fr, st, t, key), st
     return None
 
 
@@ -896,6 +900,93 @@ def m_box_drop(ai, fr, st, bb, t, args, key):
     return UNIT, st
 
 
+# ----------------------------------------------------------------- higher-order std combinators --
+
+_CAPS = {}
+
+
+def closure_captures_readonly(ai, defk):
+    """True iff every construction of the closure captures only integers/bools and shared references: calling it any
+    number of times then changes nothing the interpreter tracks (the crate has no interior mutability)."""
+    if defk in _CAPS:
+        return _CAPS[defk]
+    seen = False
+    good = True
+    for b in ai.facts.bodies:
+        for blk in b.blocks:
+            for s in blk.stmts:
+                if s.k == "assign" and s.rv.k == "aggregate" and s.rv.agg == "closure" and s.rv.closure == defk:
+                    seen = True
+                    for op in s.rv.ops:
+                        ty = op.ty
+                        if ty.k in ("uint", "int", "bool", "char"):
+                            continue
+                        if ty.k == "ref" and not ty.mut:
+                            continue
+                        good = False
+    _CAPS[defk] = seen and good
+    return _CAPS[defk]
+
+
+_ITER_OK = ("std::slice::Iter", "std::slice::IterMut", "std::ops::Range", "std::ops::RangeInclusive", "std::iter::Rev",
+            "std::iter::Enumerate", "std::iter::Copied", "std::iter::Cloned", "std::iter::Zip", "std::iter::Skip",
+            "std::iter::Take", "std::slice::Chunks", "std::slice::ChunksExact", "std::slice::Windows")
+
+
+def _plain_iterator(ty):
+    """The receiver is one of std's in-memory iterators (whose `next` neither panics, allocates nor does I/O)."""
+    import re
+    t = ty.to if ty.k == "ref" else ty
+    names = [x for x in re.findall(r"[A-Za-z_][A-Za-z0-9_]*(?:::[A-Za-z_][A-Za-z0-9_]*)+", t.s)]
+    return t.k == "adt" and bool(names) and all(n in _ITER_OK for n in names)
+
+
+def m_hof(ai, fr, st, bb, t, args, key):
+    """A std combinator that is total except for the closures it is given: every closure argument is analysed once with
+    most general arguments (so its own obligations are recorded wherever it would be called), provided it captures
+    nothing it could mutate; the combinator then returns any value of its type."""
+    for i, (a, op) in enumerate(zip(args, t.args)):
+        oty = ai.subst_ty(op.ty, fr.subst)
+        if isinstance(a, ClosureV):
+            b = ai.facts.by_def.get(a.defk)
+            if b is None or not closure_captures_readonly(ai, a.defk):
+                return None
+            s2 = st.copy()
+            tops = [ai.mk_top(b.locals[j].ty, key + ("hof", i, j), s2, fr.subst) for j in range(2, b.arg_count + 1)]
+            if ai.call_closure(fr, s2, a, tops, key + ("hof", i), bb) is None:
+                return None
+        elif oty.k in ("closure", "fndef", "fnptr", "param", "dynamic"):
+            return None
+    ai.havoc_args(fr, st, t, args, key)
+    return ret_top(ai, fr, st, t, key), st
+
+
+def m_hof_iter(ai, fr, st, bb, t, args, key):
+    if not t.args or not _plain_iterator(ai.subst_ty(t.args[0].ty, fr.subst)):
+        return None
+    return m_hof(ai, fr, st, bb, t, args, key)
+
+
+def first_of(*ms):
+    def m(ai, fr, st, bb, t, args, key):
+        for f in ms:
+            r = f(ai, fr, st, bb, t, args, key)
+            if r is not None:
+                return r
+        return None
+    return m
+
+
+HOF_TOTAL = ("std::option::Option::map_or", "std::option::Option::map_or_else", "std::option::Option::ok_or_else",
+             "std::option::Option::and_then", "std::option::Option::or_else", "std::option::Option::filter",
+             "std::option::Option::is_some_and", "std::option::Option::is_none_or",
+             "std::result::Result::map", "std::result::Result::map_or", "std::result::Result::map_or_else",
+             "std::result::Result::and_then", "std::result::Result::or_else", "std::result::Result::unwrap_or_else",
+             "std::result::Result::is_ok_and", "std::result::Result::is_err_and", "core::bool::<impl bool>::then")
+HOF_ITER = ("all", "any", "fold", "for_each", "position", "rposition", "find", "find_map", "count", "last", "nth",
+            "max", "min", "copied", "cloned", "skip", "take")
+
+
 def build_models():
     M = {}
     M["<std::result::Result<T, E> as std::ops::Try>::branch"] = m_branch
@@ -997,6 +1088,12 @@ def build_models():
     M["crc::crc32::<impl crc::Crc<u32, crc::Table<L>>>::checksum"] = m_ret_top
     M["crc::crc64::<impl crc::Crc<u64, crc::Table<L>>>::checksum"] = m_ret_top
     M["crc::crc32::<impl crc::Crc<u32, crc::Table<L>>>::digest"] = m_opaque("Digest")
+    for n in HOF_TOTAL:
+        M[n] = m_hof
+    M["std::option::Option::map"] = first_of(m_opt_map, m_hof)
+    M["std::option::Option::unwrap_or_else"] = first_of(m_unwrap_or_else, m_hof)
+    for n in HOF_ITER:
+        M["std::iter::Iterator::" + n] = m_hof_iter
     from .mir import _strip_generics
     for k in list(M):
         M.setdefault(_strip_generics(k), M[k])
@@ -1042,6 +1139,12 @@ TOTAL_EXTERNALS = _int_methods([
     "std::vec::Vec::into_boxed_slice", "std::vec::Vec::as_ptr",
     "<std::vec::Vec<T, A> as std::convert::From<std::boxed::Box<[T], A>>>::from",
     "std::io::Error::kind", "<std::io::ErrorKind as std::cmp::PartialEq>::eq",
+    "std::ops::Range::contains", "std::ops::RangeInclusive::contains", "std::ops::RangeInclusive::new",
+    "std::ops::RangeInclusive::start", "std::ops::RangeInclusive::end", "std::ops::RangeFrom::contains", "std::ops::RangeTo::contains",
+    "std::option::Option::and", "std::option::Option::is_some_and", "std::option::Option::as_deref", "std::option::Option::flatten",
+    "std::result::Result::is_ok", "std::result::Result::and", "std::result::Result::or", "core::bool::<impl bool>::then_some",
+    "core::slice::<impl [T]>::iter", "core::slice::<impl [T]>::split_first", "core::slice::<impl [T]>::split_last",
+    "core::slice::<impl [T]>::is_empty", "core::slice::<impl [T]>::len",
 }
 from .mir import _strip_generics as _sg
 TOTAL_EXTERNALS |= {_sg(x) for x in TOTAL_EXTERNALS}
